@@ -68,7 +68,11 @@ PROPS = {
         technique="runtime monitoring: online differential oracle (BTreeSet model) over generated insert/remove/lookup histories for every trie strategy and wrapper",
         level_text="Operation histories (tiny alphabets, shared prefixes, empty key, 0x00/0xFF bytes, keys beyond the path-compression limit) are executed on every ZiporaTrie preset / hand-built strategy x storage config, the legacy wrappers, the DAWG types and ParallelLoudsTrie; after every operation the return value and len are compared with a BTreeSet model and periodically the full observable state (contains on members and near misses, keys, keys_with_prefix, iteration, accepts, longest_prefix, re-insert).",
         level_note="Trusted: BTreeSet model. Targets with an open known finding (critical-bit strategy, LOUDS remove, DAWG insert-after-build) are additionally pinned by a seed-independent corpus so that a behaviour change inside them is still reported.",
-        rule="case = (target, key-generator mode, index) -> operation history; non-trivial: >= 2 distinct keys inserted; distinct: structural hash of target+history.", quick_budget=120),
+        rule="case = (target, key-generator mode, index) -> operation history; non-trivial: >= 2 distinct keys inserted; distinct: structural hash of target+history.", quick_budget=120,
+        # the huge_long_key family normally runs on a 1 GiB-stack thread; this pass runs it on the default stack, where the
+        # recursive key enumeration overflows the stack for keys longer than ~47 KiB (known finding KF-C05-deep-enumeration)
+        quick_extra=[{"variant": "fast", "name": "deep-enum", "env": {"ZV_C05_MAIN_STACK": "1"}, "gens": ["huge_long_key"], "shards": 4, "budget_s": 120}],
+        thorough_extra=[{"variant": "fast", "name": "deep-enum", "env": {"ZV_C05_MAIN_STACK": "1"}, "gens": ["huge_long_key"], "shards": 4, "budget_s": 300}]),
     "C06": diff_prop(
         technique="runtime monitoring: online differential oracle (std HashMap model) over generated histories, adversarial hashers (0, u64::MAX, collisions) and every storage/hash preset",
         level_text="Histories of insert/remove/get/get_mut/clear/iterate over tiny key spaces (delete then re-insert) and growth to 10^4 keys run on ZiporaHashMap (all presets and strategy combinations, 8 deterministic hashers incl. constant 0 / u64::MAX / low-bit collisions), GoldHashMap (u32/u64 links, all configs, revoke_deleted, both iteration strategies), GoldHashIdx, SmallMap across the inline threshold in both directions, EasyHashMap and HashStrMap; every return value, len and periodically the iteration multiset are compared with std::collections::HashMap.",
